@@ -14,6 +14,15 @@ Seeded C14_F (`_require` concatenates repr(token) into a %-format string) was mi
      of ignorable atoms only that contains `%` (TypeError / ValueError escape, check_query raises)
   b  the tokenizer regex caps an atom at 4096 characters (`[^()\\s"]{1,4096}`) - needs an atom longer than that
      (it becomes two atoms: another tree)
+
+One long-lived parser (builder wt_strong7): 12% of the cases drive ONE QueryParser instance through 4-10 queries
+(`pparse`; parseQueryEx / parseQuery + getIgnored alternate), keep every returned tree and ignored list as the
+objects they are, and after every later parse - successful, failing, or the same query once more - read all of
+them again (`held`) against the model's answers (parses are values there).  45% of these queries are grammar
+queries with 1-3 stop-word terms inserted (non-empty ignored list), 10% only stop words, 10% error positions.
+  seeded C14_H  parseQuery clears and refills one `_ignored` list in place                 MISSED before, now caught
+  M14c  parseQuery memoises the tree per query string on the instance; on a cache hit the ignored list is the
+        one of the previous, different query                                                             caught
 """
 import re
 import sys
@@ -45,7 +54,10 @@ RULE = ("each case = 8 query strings x (parse, check, exec) against QueryParser(
         "{AND OR NOT ( ) foo -bar the \"x y\" q*} and every string of length <= 5 (thorough 7) over "
         "{( ) \" - a U+3000}; 11% of all atoms are weird atoms (fragment alone / word+fragment / punctuation "
         "run / two fragments / fragment+glob / 3%: one of 10 units repeated 200-20000 times), 5% quoted strings "
-        "with control characters (a quarter glued to a neighbour). Measured quick seed 0 (51200 generated queries): "
+        "with control characters (a quarter glued to a neighbour); 12% of the cases: one QueryParser instance for "
+        "4-10 queries in a row (pparse), all trees and ignored lists handed out so far re-read after every later "
+        "parse (held) - quick seed 0: 750 such sessions, 951 successful and 1691 failing later parses while a "
+        "non-empty ignored list of an earlier query was held, 752 repeated queries. Measured quick seed 0 (51200 generated queries): "
         "tokens containing % 14921, containing { \\ or $ 16059, tokens >= 200 chars 1231, quoted strings with a "
         "control / Unicode-space character 8495 (newline 712, NUL 436); ParseErrors reported AT an atom 1612 "
         "(required-EOF 839, required-) 773), of which the atom has % 296, { 128, backslash 133, NUL 53, a control "
@@ -121,6 +133,8 @@ def make_case(pipeline, queries, ops=("parse", "check", "exec")):
     for q in queries:
         for op in ops:
             cmds.append([op, enc(q)])
+            if op == "pparse" and sum(1 for c in cmds if c[0] == "pparse") > 1:
+                cmds.append(["held"])       # everything handed out so far, re-read after this parse
     return {"session": "qparser", "cfg": cfg, "cmds": cmds}
 
 
@@ -172,6 +186,8 @@ class Impl(object):
         from hypatia.text import TextIndex
         self.lex = make_lexicon(pipeline)
         self.index = TextIndex("text", lexicon=self.lex)
+        self.parser = None
+        self.held = []
 
         class Doc(object):
             pass
@@ -186,8 +202,39 @@ class Impl(object):
             return "err ParseError" + (" deep" if nesting(q) > 200 else "")
         return exc_name(e) + ("" if type(e).__name__ != "ParseError" else " (foreign class)")
 
+    def render_held(self, h):
+        """what the caller holds for one earlier `pparse`, as it looks NOW"""
+        if isinstance(h, str):
+            return h
+        tree, ignored, also = h
+        r = "ok %s ign=[%s]" % (sexpr(tree), " ".join(enc(x) for x in ignored))
+        if also is not None and list(also) != list(ignored):
+            r += " getIgnored()-at-that-time=[%s]" % " ".join(enc(x) for x in also)
+        return r
+
     def run(self, op, q):
         from hypatia.text.queryparser import QueryParser
+        if op == "pparse":
+            # ONE parser for the whole session; the returned tree and ignored list are kept (not copied)
+            if self.parser is None:
+                self.parser = QueryParser(self.lex)
+            p = self.parser
+            try:
+                if len(self.held) % 3 == 2:
+                    tree = p.parseQuery(q)
+                    ignored = also = p.getIgnored()
+                else:
+                    tree, ignored = p.parseQueryEx(q)
+                    also = p.getIgnored() if len(self.held) % 3 == 1 else None
+                self.held.append((tree, ignored, also))
+            except Exception as e:
+                self.held.append(self.err(e, q))
+            return self.render_held(self.held[-1])
+        if op == "held":
+            try:
+                return " ; ".join(self.render_held(h) for h in self.held)
+            except Exception as e:
+                return "held-unreadable " + exc_name(e)
         if op == "parse":
             try:
                 p = QueryParser(self.lex)
@@ -227,7 +274,7 @@ def cfgdict(case):
 
 def impl_run(hyp, case):
     im = Impl(cfgdict(case).get("lexicon", "default"))
-    return [im.run(c[0], dec(c[1])) for c in case["cmds"]]
+    return [im.run(c[0], dec(c[1]) if len(c) > 1 else "") for c in case["cmds"]]
 
 
 def same(a, b):
@@ -537,8 +584,37 @@ def gen_query(rng):
     return gen_deep(rng)
 
 
+def gen_reuse_query(rng):
+    """queries for a long-lived parser: half of them carry terms the lexicon drops (ignored list non-empty),
+    a fifth fail; never the deep ones (the answers of a whole session are compared as one line)"""
+    r = rng.random()
+    if r < 0.45:
+        toks = gen_or(rng, 0, [rng.choice([3, 5, 8])])
+        for _ in range(rng.choice([1, 1, 2, 3])):
+            stop = rng.choice(STOPS)
+            toks.insert(rng.randrange(len(toks) + 1),
+                        rng.choice([stop, stop, "-" + stop, '"%s %s"' % (stop, rng.choice(STOPS))]))
+        return join(rng, toks)
+    if r < 0.55:
+        return " ".join(rng.choice(STOPS) for _ in range(rng.randrange(1, 4)))      # only stop words: fails
+    if r < 0.65:
+        return gen_errpos(rng)
+    while True:
+        q = gen_query(rng)
+        if nesting(q) <= 100:
+            return q
+
+
+REUSE_P = 0.12      # share of the cases that drive ONE QueryParser instance through 4-8 queries
+
+
 def gen(rng, tier, idx):
     pipeline = rng.choice(PIPELINES) if rng.random() < 0.5 else "default"
+    if rng.random() < REUSE_P:
+        qs = [gen_reuse_query(rng) for _ in range(rng.randrange(4, 9))]
+        for _ in range(rng.choice([0, 1, 1, 2])):
+            qs.insert(rng.randrange(1, len(qs) + 1), rng.choice(qs))     # the same query again later
+        return make_case(pipeline, qs, ops=("pparse",))
     return make_case(pipeline, [gen_query(rng) for _ in range(8)])
 
 
@@ -586,16 +662,34 @@ def err_kind(hyp, pipeline, q):
 
 
 def nontrivial(case, outs):
-    ok = any(c[0] == "parse" and o.startswith("ok") and ("(and" in o or "(or" in o or "(not" in o)
+    ok = any(c[0] in ("parse", "pparse") and o.startswith("ok") and ("(and" in o or "(or" in o or "(not" in o)
              for c, o in zip(case["cmds"], outs))
-    bad = any(c[0] == "parse" and o.startswith("err") for c, o in zip(case["cmds"], outs))
+    bad = any(c[0] in ("parse", "pparse") and o.startswith("err") for c, o in zip(case["cmds"], outs))
     return ok and bad
 
 
 def features(case, outs):
     f = ["lexicon:" + cfgdict(case).get("lexicon", "default")]
     pipeline = cfgdict(case).get("lexicon", "default")
+    reuse = [(c, o) for c, o in zip(case["cmds"], outs) if c[0] == "pparse"]
+    if reuse:
+        # one long-lived parser: how many earlier answers with a non-empty ignored list are still held when a
+        # later parse (successful / failing / the same query again) runs
+        f.append("mode:parser-reuse")
+        f.append("reuse:parses=%d" % len(reuse))
+        seenq = set()
+        held_ign = 0
+        for c, o in reuse:
+            if held_ign:
+                f.append("reuse:later-parse-%s-while-nonempty-ignored-held" % ("ok" if o.startswith("ok") else "fails"))
+            if c[1] in seenq:
+                f.append("reuse:same-query-again")
+            seenq.add(c[1])
+            if o.startswith("ok") and not o.endswith("ign=[]"):
+                held_ign += 1
     for c, o in zip(case["cmds"], outs):
+        if c[0] == "held":
+            continue
         q = dec(c[1])
         if c[0] == "exec":
             f.append("exec:" + o)
@@ -668,6 +762,8 @@ def shrink_more(case, fails):
     pipeline = cfgdict(case).get("lexicon", "default")
     cmds = case["cmds"]
     if not cmds:
+        return case
+    if len(cmds) != 1 or cmds[0][0] not in ("parse", "check", "exec"):
         return case
     op, q = cmds[0][0], dec(cmds[0][1])
     best = make_case(pipeline, [q], ops=(op,))
